@@ -68,6 +68,17 @@ def run(payload):
                     fail("basis_orthonormal_right_handed", grid=repr(g))
                 if not np.allclose(Rm.T * h[:, m], J[..., m], atol=1e-12):
                     fail("basis_vs_jacobian", grid=repr(g))
+            # the coordinate systems without a grid class of their own (both half spaces tau < 0 and tau > 0)
+            from pde.grids.coordinates import BipolarCoordinates, BisphericalCoordinates
+            for cs in (BipolarCoordinates(float(rng.uniform(0.5, 2))), BisphericalCoordinates(float(rng.uniform(0.5, 2)))):
+                pts2 = np.c_[rng.uniform(0.3, 2.8, 6), np.r_[rng.uniform(-2, -0.2, 3), rng.uniform(0.2, 2, 3)], rng.uniform(-3, 3, 6)][:, : cs.dim]
+                R2, J2, h2 = cs.basis_rotation(pts2), cs.mapping_jacobian(pts2), cs.scale_factors(pts2)
+                for m in range(6):
+                    Rm = R2[..., m]
+                    if not np.allclose(Rm @ Rm.T, np.eye(cs.dim), atol=1e-10) or not np.isclose(np.linalg.det(Rm), 1):
+                        fail("basis_orthonormal_right_handed", grid=repr(cs), point=pts2[m].tolist())
+                    if not np.allclose(Rm.T * h2[:, m], J2[..., m], atol=1e-10):
+                        fail("basis_vs_jacobian", grid=repr(cs), point=pts2[m].tolist())
             # conversion to Cartesian grids: radial field r e_r -> (x, y[, z]); axial field -> e_z
             rad = VectorField.from_expression(g, ["r" if n == "r" else "0" for n in names])
             if isinstance(g, PolarSymGrid):
